@@ -226,6 +226,7 @@ pub fn leaves() -> Vec<Leaf> {
         leaf("decl_init_cast", Stmt::Decl { konst: false, ty: Ty::w("float", 64), name: s("v17"), init: Some(Expr::Cast(Ty::w("float", 64), Box::new(id("a")))) }),
         leaf("decl_init_measure", Stmt::Decl { konst: false, ty: Ty::plain("bit"), name: s("v18"), init: Some(Expr::Measure(opd("r"))) }),
         leaf("decl_init_neg", Stmt::Decl { konst: false, ty: Ty::plain("int"), name: s("v19"), init: Some(un(UnOp::Neg, int(5))) }),
+        leaf("decl_init_neg_float", Stmt::Decl { konst: false, ty: Ty::w("float", 64), name: s("v39"), init: Some(un(UnOp::Neg, flt("1.5"))) }),
         gleaf("io_input", Stmt::Io { input: true, ty: Ty::w("int", 8), name: s("v20") }),
         gleaf("io_output", Stmt::Io { input: false, ty: Ty::plain("bit"), name: s("v21") }),
         gleaf("qubit", Stmt::Qubit { size: None, name: s("v22") }),
